@@ -738,6 +738,18 @@ def rule_skip_zero(ctx):
                     "a cell with a non-zero count is skipped without consulting the reader kernel", fact_strs(le)))
     agg(ctx, "scan-all", gcs, gcs.node, "cell skip conditions in generate_candidate_set",
         "only empty (zero-count) cells and already-listed keys are skipped", res)
+    # the scan runs over the whole table: nothing leaves the row/column loops early
+    early = [e for e in w.events if (e.kind == "ret" and e.loops) or e.kind == "loopbreak"]
+    res = [(False, "the scan of the table is abandoned at `%s`: cells after it are never examined, so a key that qualifies can be missing"
+            % unparse(e.node, 50), fact_strs(e)) for e in early]
+    starts = [e for e in w.events if e.kind == "loopstart" and isinstance(e.node, ast.For)]
+    full = []
+    for e in starts:
+        lp = e.loop
+        full.append(lp.kind == "range" and lp.start == Lin.const(0) and lp.step == Lin.const(1))
+    agg(ctx, "scan-all", gcs, (early[0].node if early else gcs.node), "row/column loops of generate_candidate_set",
+        "every cell of the table is examined (full ranges, no early exit)", res or [(bool(full) and all(full), "full ranges, no early exit"
+                                                                                 if full and all(full) else "a scan loop does not start at 0 with step 1", [])])
 
 
 # ---------------------------------------------------------------------------
